@@ -121,6 +121,8 @@ structure World where
   ON : Eid → List Name := fun _ => []
   /-- the `folded_values` keys the fold numbered `eid` contributes -/
   FK : Eid → List (Eid × Name) := fun _ => []
+  /-- every tag name defined inside the fold numbered `eid` (at any depth) -/
+  IT : Eid → List Name := fun _ => []
 
 namespace World
 
@@ -217,6 +219,28 @@ theorem absL_tagNames (W : World) (base : List (Name × Tagged)) (L : List Ev) (
 theorem tagNames_append (W : World) (L1 L2 : List Ev) :
     tagNames W (L1 ++ L2) = tagNames W L1 ++ tagNames W L2 := by
   simp [tagNames]
+
+/-- Tag names bound by an event or defined inside it (a fold's component). -/
+def evDeepTagNames (W : World) : Ev → List Name
+  | .vtx w => (W.TG w).map (·.1)
+  | .fold e => W.CT e ++ W.IT e
+
+def deepTagNames (W : World) (L : List Ev) : List Name := L.flatMap (evDeepTagNames W)
+
+theorem deepTagNames_append (W : World) (L1 L2 : List Ev) :
+    deepTagNames W (L1 ++ L2) = deepTagNames W L1 ++ deepTagNames W L2 := by
+  simp [deepTagNames]
+
+theorem tagNames_sublist_deep (W : World) (L : List Ev) :
+    (tagNames W L).Sublist (deepTagNames W L) := by
+  induction L with
+  | nil => exact List.Sublist.refl _
+  | cons ev rest ih =>
+    simp only [tagNames, deepTagNames, List.flatMap_cons] at *
+    refine List.Sublist.append ?_ ih
+    cases ev with
+    | vtx w => exact List.Sublist.refl _
+    | fold e => exact List.sublist_append_left _ _
 
 theorem find?_of_mem_nodup {β : Type} {l : List (Name × β)} {k : Name} {b : β}
     (hn : (l.map (·.1)).Nodup) (hm : (k, b) ∈ l) : l.find? (·.1 == k) = some (k, b) := by
